@@ -1,6 +1,7 @@
 package c12
 
 import (
+	"fmt"
 	"go/ast"
 	"go/token"
 	"regexp"
@@ -37,6 +38,7 @@ type overrideRule struct {
 // IotaHazard describes a constant group of an original file from which a spec is removed although
 // a later constant of the group depends on its position (iota or implicit repetition).
 type IotaHazard struct {
+	FileIdx int    `json:"-"` // index into the original files
 	File    string `json:"file"`
 	Removed string `json:"removed"`
 	Victim  string `json:"victim"`
@@ -107,7 +109,10 @@ func evalMerge(fset *token.FileSet, overlay, original []*ast.File) (files [][]Tu
 			}
 		}
 		files = append(files, out)
-		hazards = append(hazards, iotaHazards(fset, f, rules)...)
+		for _, h := range iotaHazards(fset, f, rules) {
+			h.FileIdx = len(files) - 1 - len(overlay)
+			hazards = append(hazards, h)
+		}
 	}
 	return
 }
@@ -163,4 +168,40 @@ func iotaHazards(fset *token.FileSet, f *ast.File, rules map[string]overrideRule
 		}
 	}
 	return out
+}
+
+// constPosition describes what determines the value of constant `name` inside a parenthesised
+// group: the index of its spec (iota), its index in the spec and the effective expression list.
+func constPosition(fset *token.FileSet, f *ast.File, name string) string {
+	for _, d := range f.Decls {
+		gd, ok := d.(*ast.GenDecl)
+		if !ok || gd.Tok != token.CONST || !gd.Lparen.IsValid() {
+			continue
+		}
+		for i, s := range gd.Specs {
+			vs, ok := s.(*ast.ValueSpec)
+			if !ok {
+				continue
+			}
+			for k, n := range vs.Names {
+				if n.Name != name {
+					continue
+				}
+				for j := i; j >= 0; j-- {
+					if e, ok := gd.Specs[j].(*ast.ValueSpec); ok && len(e.Values) > 0 {
+						out := fmt.Sprintf("spec %d name %d:", i, k)
+						if e.Type != nil {
+							out += " " + printNode(fset, e.Type)
+						}
+						for _, v := range e.Values {
+							out += " " + printNode(fset, v)
+						}
+						return out
+					}
+				}
+				return fmt.Sprintf("spec %d name %d: <no expression>", i, k)
+			}
+		}
+	}
+	return ""
 }
